@@ -35,8 +35,10 @@ def suite(repo):
 
 def main():
     base_fail = None
-    for prop in sys.argv[1:]:
-        src = "/tmp/wt_out/" + prop
+    for arg in sys.argv[1:]:
+        src = "/tmp/wt_out/" + arg
+        prop = arg[:3]                       # C01b -> property C01
+        offset = 2 * (ord(arg[3]) - ord("a") + 1) if len(arg) > 3 else 0
         for i in (1, 2):
             patch = os.path.join(src, "patch%d.diff" % i)
             demo = os.path.join(src, "demo%d.py" % i)
@@ -57,7 +59,7 @@ def main():
                 if rc != 0:
                     rc, out = sh(["git", "-C", repo, "apply", patch])
                 if rc != 0:
-                    print("%s-%d PATCH-FAILED %s" % (prop, i, out.strip()[:300]))
+                    print("%s-%d PATCH-FAILED %s" % (prop, i + offset, out.strip()[:300]))
                     continue
                 sh(["git", "-C", repo, "reset", "-q"])
                 diff = subprocess.run(["git", "-C", repo, "diff"], capture_output=True, text=True).stdout
@@ -73,12 +75,12 @@ def main():
                     print("   differing failures:", sorted(set(failed) ^ set(base_fail)))
                 ok = rc0 == 0 and rc1 != 0 and cnt is not None and cnt[1] == 907 and failed == base_fail
                 print("%s-%d demo_clean_rc=%d demo_patched_rc=%d suite=%s same_failures=%s => %s" % (
-                    prop, i, rc0, rc1, cnt, failed == base_fail, "KEEP" if ok else "REJECT"))
+                    prop, i + offset, rc0, rc1, cnt, failed == base_fail, "KEEP" if ok else "REJECT"))
                 if not ok:
                     print("   demo clean tail:", out0.strip()[-300:].replace("\n", " | "))
                     print("   suite tail:", tail.strip()[-200:].replace("\n", " | "))
                     continue
-                d = os.path.join(VERIF, "seeded", "%s-%d" % (prop, i))
+                d = os.path.join(VERIF, "seeded", "%s-%d" % (prop, i + offset))
                 os.makedirs(d, exist_ok=True)
                 with open(os.path.join(d, "patch.diff"), "w") as f:
                     f.write(diff)
